@@ -23,7 +23,7 @@ POS_FIELDS = ("offset", "location", "chars")
 
 
 def run(prog, rep):
-    pf = [f for f in prog.fns.values() if f.body is not None and (f.self_path == "tsg::parser::Parser" or (f.kind == "closure" and "tsg::parser::Parser" in f.id))]
+    pf = [f for f in prog.shape_fns() if f.body is not None and (f.self_path == "tsg::parser::Parser" or (f.kind == "closure" and "tsg::parser::Parser" in f.id))]
     # ---- E7.w
     rep.rule("E7.w", "Parser.{offset,location,chars} are written only by Parser::next (offset += len_utf8(ch), location.advance(ch), chars.next()); Location::advance: '\\n' → row+1, column=0; else column+1")
     writers = {k: set() for k in POS_FIELDS}
@@ -177,6 +177,33 @@ def run(prog, rep):
                                 work.extend(body.succ(x))
                     rep.check(not alt, "E7.k", "%s :: keyword %r" % (f.id, s), sp_str(t["sp"]), "not an alternative to an identifier here",
                               "keyword %r is an alternative to an identifier at this position but is consumed with consume_token (no word boundary)" % s)
+    # the top-level declaration keywords (attribute / global / inherit) compete with a stanza whose query starts with a *field name*
+    # spelled like the keyword (`attribute : (identifier) @x`): the keyword is only taken when what follows — after any whitespace —
+    # is not the colon of a field name, and is otherwise consumed with the word-boundary rule of consume_keyword
+    rep.rule("E7.f", "consume_declaration_keyword: a keyword followed (after optional whitespace) by ':' is a field name, not a declaration; otherwise the keyword is consumed by consume_keyword")
+    dk = [f for f in pf if f.name == "consume_declaration_keyword"]
+    if len(dk) != 1:
+        rep.violation("E7.f", "anchor-lost:consume_declaration_keyword", "", "not found")
+    else:
+        f = dk[0]
+        body, tr = f.body, Tracer(f.body)
+        cons = [(b, t) for b, t in body.calls() if is_callee(t, r"Parser::<'a>::(next|skip|consume_n|consume_while|consume_whitespace|consume_keyword|consume_token)$")]
+        okc = len(cons) == 1 and is_callee(cons[0][1], r"Parser::<'a>::consume_keyword$") and canon(strip(tr.operand(cons[0][1]["args"][1]))) == "arg:keyword"
+        rep.check(okc, "E7.f", "consume_declaration_keyword :: delegates", f.loc(), "the keyword itself is consumed by consume_keyword(keyword)",
+                  "a declaration keyword is consumed by %s instead of consume_keyword (word boundary)" % [callee_fn(t)["def"].rsplit("::", 1)[-1] for _b, t in cons])
+        okl = False
+        for b in sorted(body.reachable()):
+            for g in switch_edges(body, tr, b):
+                ncond, nval = normalized(g)
+                c = canon(ncond)
+                if nval is True and re.match(r"^str::starts_with\(&\*str::trim_start\(.*RangeFrom\{str::len\(&\*arg:keyword\)\}\)\), ':'\)$", c) and "arg:self.offset" in c:
+                    # the colon edge must fail without consuming
+                    r = body.reach_from([g.dst])
+                    builds_err = any(st["k"] == "assign" and st["rv"]["k"] == "aggregate" and st["rv"].get("variant") == "Err" for x in r for st in body.blocks[x]["stmts"])
+                    consumes = any(cb in r for cb, _t in cons)
+                    okl = builds_err and not consumes
+        rep.check(okl, "E7.f", "consume_declaration_keyword :: field-name lookahead", f.loc(), "rest[kw.len()..].trim_start().starts_with(':') → Err, nothing consumed",
+                  "the field-name lookahead does not skip whitespace before the ':' (or no longer fails without consuming): `attribute : (x)` is read as a declaration")
     # ---- E7.b failed consumption consumes nothing
     rep.rule("E7.b", "consume_token / consume_keyword / consume_declaration_keyword consume nothing on their failure paths")
     for f in pf:
